@@ -137,6 +137,12 @@ def run(ctx):
 
     for i in range(n_docs):
         doc, info = gen.gen_tables(rng, aliases=True, max_lines=rng.choice([2, 3, 4]), max_ds=rng.choice([2, 3, 4]))
+        if i % 4 == 3:
+            # a decay line written twice in its block, token for token (two lines of the table: two choices)
+            blocks_ = [st for st in doc if st[0] == "decay" and st[2]]
+            for b_ in rng.sample(blocks_, min(len(blocks_), rng.choice([1, 1, 2]))):
+                src = rng.choice(b_[2])
+                b_[2].insert(rng.randint(0, len(b_[2])), [src[0], list(src[1]), src[2], src[3]])
         text = render_doc(doc)
         try:
             p = DecFileParser.from_string(text)
